@@ -11,6 +11,7 @@
 #include <cocls/scheduler.h>
 #include <cocls/publisher.h>
 #include <cocls/coro_storage.h>
+#include <cocls/shared_future.h>
 #include <thread>
 #include <vector>
 
@@ -36,6 +37,7 @@ cocls::async<void> co_waiter(Fut &f, int rk, int who) {
     catch (const cocls::await_canceled_exception &) { if (rk < 2) dsim::fail("C03.payload", "coroutine waiter %d saw no-value", who); }
     dsim::cell_add(OBS + who, 1);
 }
+cocls::promise<vs::Counted> shared;         // namespace scope, not function-local: a guarded static would cost one step in the first run of a process only
 void family_future() {
     int rk = dsim::choose(5);                  // value, exception, drop, destruction, 4: value racing with an explicit drop on the shared promise
     int nw = 1 + dsim::choose(3);
@@ -46,7 +48,7 @@ void family_future() {
         std::vector<std::thread> th;
         if (rk == 4) {
             // two resolvers share the promise by reference (the documented thread-safe use); whoever wins, waiters must see a complete result
-            static cocls::promise<vs::Counted> shared; shared = f.get_promise();
+            shared = f.get_promise();
             th.emplace_back([] { bool ok = shared(VAL); dsim::cell_add(RESOLVED, ok ? 1 : 0); dsim::cell_add(DONE, 1); });
             th.emplace_back([] { bool ok = shared(cocls::drop); dsim::cell_add(RESOLVED, ok ? 1 : 0); dsim::cell_add(DONE, 1); });
         } else
@@ -189,7 +191,7 @@ void family_scheduler() {
 
 // ------------------------------------------------------------------ family F: publisher thread against subscriber threads
 // (no co_await inside a loop condition: g++ 12 miscompiles that form)
-cocls::async<void> sub_coro(cocls::subscriber<Msg> &s) { for (;;) { bool ok = co_await s.next(); if (!ok) break; dsim::cell_add(SUM, s.value().check() > 0 ? 1 : 0); } }
+cocls::async<void> sub_coro(cocls::subscriber<Msg> &s) { for (;;) { bool ok = co_await s.next(); if (!ok) break; dsim::cell_add(SUM, s.value().check() > 0 ? 1 : 0); dsim::cell_add(OBS + 7, (long)s.position()); } }
 void family_publisher() {
     int ns = 1 + dsim::choose(2), np = 1 + dsim::choose(4); int kind[2] = {(int)dsim::choose(2), (int)dsim::choose(2)};
     int mode[2] = {(int)dsim::choose(3), (int)dsim::choose(3)};      // all_values, skip_if_behind, skip_to_recent
@@ -199,7 +201,8 @@ void family_publisher() {
     for (int i = 0; i < ns; i++) th.emplace_back([&pub, i, k = kind[i], m = mode[i]] {
         cocls::subscriber<Msg> s(pub, m == 0 ? cocls::subscribtion_type::all_values : m == 1 ? cocls::subscribtion_type::skip_if_behind : cocls::subscribtion_type::skip_to_recent);
         dsim::cell_add(OBS + 8, 1);
-        if (k) sub_coro(s).join(); else while (s.next()) { s.value().check(); dsim::cell_add(SUM, 1); }
+        dsim::cell_add(OBS + 7, (long)s.position());          // the subscriber's own accessor, while other threads subscribe and publish
+        if (k) sub_coro(s).join(); else while (s.next()) { s.value().check(); dsim::cell_add(SUM, 1); dsim::cell_add(OBS + 7, (long)s.position()); }
     });
     bool two_publishers = dsim::flip();
     std::thread pt2;
@@ -237,17 +240,63 @@ void family_storage() {
     });
     for (auto &t : th) t.join();
 }
+
+// ------------------------------------------------------------------ family H: shared_future (a future awaited / polled / dropped through copies while another thread resolves it)
+using SF = cocls::shared_future<vs::Counted>;
+void sf_check(SF &sf, int rk, int who) {
+    try { long v = sf.value().value(); if (rk != 0 || v != VAL) dsim::fail("C03.payload", "shared_future user %d read %ld (resolver kind %d)", who, v, rk); }
+    catch (const vs::TestError &e) { if (rk != 1 || e.code != 5) dsim::fail("C03.payload", "shared_future user %d got exception %ld", who, e.code); }
+    catch (const cocls::await_canceled_exception &) { if (rk != 2) dsim::fail("C03.payload", "shared_future user %d saw no-value for resolver kind %d", who, rk); }
+}
+cocls::async<void> sf_co_user(SF sf, int rk, int who) {
+    try { vs::Counted &r = co_await sf; if (rk != 0 || r.value() != VAL) dsim::fail("C03.payload", "shared_future coroutine %d read %ld", who, r.v); }
+    catch (const vs::TestError &e) { if (rk != 1 || e.code != 5) dsim::fail("C03.payload", "shared_future coroutine %d got exception %ld", who, e.code); }
+    catch (const cocls::await_canceled_exception &) { if (rk != 2) dsim::fail("C03.payload", "shared_future coroutine %d saw no-value", who); }
+}
+void family_shared() {
+    int ctor = dsim::choose(3);              // 0 promise-taking function, 1 future-returning function, 2 default-constructed + get_promise()
+    int rk = dsim::choose(3);                // value, exception, drop
+    int nu = dsim::choose(3); int uk[2]; for (int i = 0; i < nu; i++) uk[i] = dsim::choose(4);
+    bool in_ctor = ctor != 2 && dsim::flip(); // the init function itself starts the resolver thread: resolution may overtake the constructor
+    bool drop_early = dsim::flip();
+    dsim::plan_note("shared_future: ctor=%d resolver=%d in_ctor=%d drop_early=%d users=", ctor, rk, (int)in_ctor, (int)drop_early); for (int i = 0; i < nu; i++) dsim::plan_note("%d", uk[i]);
+    {
+        std::thread res; cocls::promise<vs::Counted> prom;
+        auto resolver = [rk](cocls::promise<vs::Counted> p) { return std::thread([q = std::move(p), rk]() mutable { if (rk == 0) q(VAL); else if (rk == 1) q(vs::make_err(5)); else q(cocls::drop); }); };
+        auto take = [&](cocls::promise<vs::Counted> p) { if (in_ctor) res = resolver(std::move(p)); else prom = std::move(p); };
+        std::unique_ptr<SF> sf;
+        if (ctor == 0) sf = std::make_unique<SF>([&](cocls::promise<vs::Counted> p) { take(std::move(p)); });
+        else if (ctor == 1) sf = std::make_unique<SF>([&]() -> cocls::future<vs::Counted> { return [&](cocls::promise<vs::Counted> p) { take(std::move(p)); }; });
+        else { sf = std::make_unique<SF>(); prom = sf->get_promise(); }
+        std::vector<std::thread> th;
+        for (int i = 0; i < nu; i++) th.emplace_back([copy = *sf, i, k = uk[i], rk]() mutable {
+            switch (k) {
+            case 0: sf_co_user(copy, rk, i).join(); break;
+            case 1: copy.sync(); sf_check(copy, rk, i); break;
+            case 2: break;                                                   // dropped at once
+            default: while (!copy.ready()) std::this_thread::yield(); sf_check(copy, rk, i); break;
+            }
+        });
+        if (!in_ctor) res = resolver(std::move(prom));
+        if (drop_early) sf.reset();                                          // possibly the last handle, possibly after the resolution: whoever destroys the state must see the result
+        res.join();
+        for (auto &t : th) t.join();
+        if (sf) sf_check(*sf, rk, 9);
+    }
+    vs::Counted::expect_balanced("C03.instances");
+}
 } // namespace
 
 void dsim_scenario() {
     dsim::config().race_is_violation = true;
-    switch (dsim::choose(7)) {
+    switch (dsim::choose(8)) {
     case 0: family_future(); break;
     case 1: family_mutex(); break;
     case 2: family_queue(); break;
     case 3: family_pool(); break;
     case 4: family_scheduler(); break;
     case 5: family_publisher(); break;
-    default: family_storage(); break;
+    case 6: family_storage(); break;
+    default: family_shared(); break;
     }
 }
